@@ -685,14 +685,24 @@ func isUnknownSpec(a predOutcome) predOutcome {
 
 //@ func intUMinus
 //@ props C13
-//@ ensures [C13] exact: fitsInt64(-x) ==> r0 == -x
-//@ ensures [C13] nowrap: !fitsInt64(-x) ==> false
+//@ requires [C13] negatable: x != -9223372036854775808
+//@ ensures [C13] exact: r0 == -x
 
 //@ func intAbs
 //@ props C16 C13
+//@ requires [C16 C13] negatable: x != -9223372036854775808
 //@ ensures [C16] exact: x >= 0 ==> r0 == x
-//@ ensures [C16] exact-neg: x < 0 && fitsInt64(-x) ==> r0 == -x
+//@ ensures [C16] exact-neg: x < 0 ==> r0 == -x
 //@ ensures [C16] nowrap: r0 >= 0
+
+// the integer callbacks are only ever applied through applyIntCallback, which
+// keeps the one value they cannot handle away from them
+//@ func applyIntCallback
+//@ props C13 C16
+//@ atcall intCallback assert [C13 C16] never-the-smallest-integer: arg_0 != -9223372036854775808
+//@ ensures [C13 C16] integer: x != -9223372036854775808 ==> r0 == any(dynret[int64](intCallback, 0, x))
+//@ ensures [C13 C16] smallest-integer-as-float: x == -9223372036854775808 ==> r0 == any(dynret[float64](floatCallback, 0, toFloat(x)))
+//@ ensures [C13 C16] result-numeric: is[int64](r0) || is[float64](r0)
 
 //@ func intSelf
 //@ props C13
@@ -726,7 +736,7 @@ func isUnknownSpec(a predOutcome) predOutcome {
 //@ func castJSONNumber
 //@ props C13
 //@ ensures [C13] result-numeric: r1 ==> is[int64](r0) || is[float64](r0)
-//@ ensures [C13] integer-stays-exact: uninterp[bool]("jnIsInt", string(num)) ==> r1 && r0 == any(dynret[int64](intCallback, 0, uninterp[int64]("jnInt", string(num))))
+//@ ensures [C13] integer-stays-exact: uninterp[bool]("jnIsInt", string(num)) && uninterp[int64]("jnInt", string(num)) != -9223372036854775808 ==> r1 && r0 == any(dynret[int64](intCallback, 0, uninterp[int64]("jnInt", string(num))))
 //@ ensures [C13] fraction-as-float: !uninterp[bool]("jnIsInt", string(num)) && uninterp[bool]("jnIsFloat", string(num)) ==> r1 && r0 == any(dynret[float64](floatCallback, 0, uninterp[float64]("jnFloat", string(num))))
 
 //@ func (*Executor).execBinaryMathExpr
@@ -749,7 +759,8 @@ func isUnknownSpec(a predOutcome) predOutcome {
 //@ loop 1 invariant [C13] every-item: !(found == nil && node.Next() == nil) ==> ncalls(exec.executeNextItem) == loopEntry(ncalls(exec.executeNextItem)) + rangeindex + 1
 //@ atcall executeItemOptUnwrapResult assert [C13] operand: arg_value == value && arg_unwrap && arg_node == node.Operand()
 //@ atcall executeNextItem assert [C13] numeric-only: arg_found == found && (is[int64](v) || is[float64](v) || is[json.Number](v))
-//@ atcall executeNextItem assert [C13] int-negated: is[int64](v) ==> arg_value == any(dynret[int64](intCallback, 0, as[int64](v)))
+//@ atcall executeNextItem assert [C13] int-negated: is[int64](v) && as[int64](v) != -9223372036854775808 ==> arg_value == any(dynret[int64](intCallback, 0, as[int64](v)))
+//@ atcall executeNextItem assert [C13] smallest-int-negated-as-float: is[int64](v) && as[int64](v) == -9223372036854775808 ==> arg_value == any(dynret[float64](floatCallback, 0, toFloat(as[int64](v))))
 //@ atcall executeNextItem assert [C13] float-negated: is[float64](v) ==> arg_value == any(dynret[float64](floatCallback, 0, as[float64](v)))
 //@ ensures [C13 C06] not-found-means-every-item-tried: r0 == statusNotFound && r1 == nil && !(node.Next() == nil && found == nil) ==> ncalls(exec.executeNextItem) == len(seq.list)
 //@ ensures [C06 C13] exists-ok-comes-from-continuation: found == nil && node.Next() != nil && r0 == statusOK ==> ncalls(exec.executeNextItem) >= 1 && callret[resultStatus](exec.executeNextItem, 0) == statusOK
@@ -919,7 +930,7 @@ func isUnknownSpec(a predOutcome) predOutcome {
 //@ alsoprops E2 C16
 //@ props C16
 //@ requires node != nil
-//@ ensures [C16] int: is[int64](value) ==> ncalls(exec.executeNextItem) == 1 && callarg[any](exec.executeNextItem, "value") == any(dynret[int64](intCallback, 0, as[int64](value)))
+//@ ensures [C16] int: is[int64](value) && as[int64](value) != -9223372036854775808 ==> ncalls(exec.executeNextItem) == 1 && callarg[any](exec.executeNextItem, "value") == any(dynret[int64](intCallback, 0, as[int64](value)))
 //@ ensures [C16] float: is[float64](value) ==> ncalls(exec.executeNextItem) == 1 && callarg[any](exec.executeNextItem, "value") == any(dynret[float64](floatCallback, 0, as[float64](value)))
 //@ ensures [C16] domain: !(is[[]any](value) || is[int64](value) || is[float64](value) || is[json.Number](value)) ==> r0 == statusFailed && ncalls(exec.executeNextItem) == 0 && (r1 == nil || errIs(r1, ErrVerbose))
 
